@@ -24,6 +24,10 @@ DEC = f"{DM}:DIMSEMessage.decode_msg"
 P2M = f"{DM}:DIMSEMessage.primitive_to_message"
 
 
+def _zb(x):
+    return z3.BoolVal(x) if isinstance(x, bool) else (x.e if isinstance(x, SV) else x)
+
+
 def ghost_bytes(I, name, min_len=0):
     base = I.input("bytes", name).e
     n = z3.Length(base)
@@ -150,28 +154,23 @@ class FragStream:
         self.fl = fl
         self.count = z3.IntVal(0)
         self.whole = None
+        # N: the number of fragments the generator yields in all (proved by GenTask: 1 for an unlimited length, else ceil(n/k))
+        N = I.fresh("int", f"N_{tag}")
+        I.assume(z3.If(fl == 0, N.e == 1, z3.Implies(fl >= 7, ceil_div_facts(n, fl - 6, N.e))))
+        self.N = N.e
 
     def sym_next(self, I, default):
         fl = self.fl
-        if I.branch(SV(fl == 0, "bool"), "max0"):
-            self.last_j = self.count
-            if I.valid(self.count == 0):
-                self.count = self.count + 1
-                return LB([Slice(self.base, 0, self.n)])
-            if I.branch(SV(self.count == 0, "bool"), "first"):
-                self.count = z3.IntVal(1)
-                return LB([Slice(self.base, 0, self.n)])
-            I.raise_("StopIteration")
-        k = fl - 6
         j = self.count
-        N = I.fresh("int", f"N_{self.tag}")
-        I.assume(ceil_div_facts(self.n, k, N.e))
-        if not I.valid(j < N.e):
-            if I.branch(SV(j >= N.e, "bool"), "exhausted"):
+        if not I.valid(j < self.N):
+            if I.branch(SV(j >= self.N, "bool"), "exhausted"):
                 I.raise_("StopIteration")
-        hi = z3.If((j + 1) * k <= self.n, (j + 1) * k, self.n)
-        self.count = j + 1
         self.last_j = j
+        self.count = j + 1
+        if I.branch(SV(fl == 0, "bool"), "max0"):
+            return LB([Slice(self.base, 0, self.n)])
+        k = fl - 6
+        hi = z3.If((j + 1) * k <= self.n, (j + 1) * k, self.n)
         return LB([Slice(self.base, j * k, hi)])
 
 
@@ -191,7 +190,8 @@ class EncLoop(LoopSpec):
         st = g["streams"].get(self.which)
         if st is None:
             return False
-        return st.count == i
+        # as many next() calls as iterations, and never more than the generator has fragments
+        return z3.And(st.count == i, st.count <= st.N, st.count >= 0)
 
     def havoc(self, I, fr):
         g = I.ghost
@@ -443,6 +443,7 @@ class DecLoop(LoopSpec):
         if isinstance(msg, Obj):
             msg.fields["context_id"] = I.opaque("context_id", nonnull=False)
             msg.fields["command_set"] = I.opaque("command_set")
+            g["ctx_at_step_start"] = msg.fields["context_id"]
         g["msg"] = msg
 
     def after_body(self, I, fr):
@@ -528,6 +529,14 @@ class DecodeStepTask(Task):
             cmd_ok = z3.If(is_cmd, g["cmd_buf"] == z3.Concat(g["cmd_buf0"], payload), g["cmd_buf"] == g["cmd_buf0"])
             ds_ok = z3.If(is_cmd, g["ds_buf"] == g["ds_buf0"], g["ds_buf"] == z3.Concat(g["ds_buf0"], payload))
             I.ob(f"{P}/payload-appended-to-exactly-the-buffer-its-header-names", z3.And(cmd_ok, ds_ok), detail=f"writes={len(writes)}")
+            # the presentation context a message is received on is the one its command set arrived on (C19 decides on it
+            # whether the request may reach a handler): only the last command fragment sets it, a data-set fragment never does
+            now, before = g["msg"].fields.get("context_id"), g.get("ctx_at_step_start")
+            set_to_this = _zb(I.eq(now, SV(ctx_f(i), "int")))
+            unchanged = z3.BoolVal(now is before)
+            for pfx in (P, f"C19/{DEC}"):
+                I.ob(f"{pfx}/the-message's-context-id-is-set-by-the-last-command-fragment-and-by-nothing-else",
+                     z3.If(z3.And(is_cmd, is_last), set_to_this, unchanged), detail=f"before {before!r} now {now!r}")
             cs = g.get("cs")
             if how == "return":
                 val = I.as_bool(val)
